@@ -47,7 +47,7 @@ MANIFEST = {
             "the statement order of setup_common_environment, the shape of dict_flatten and the removed transform keys are "
             "translated tables satisfying decidable predicates. Differential correspondence runs the real setup_common_environment / setup_engine / "
             "build_transforms_from_environment on all files and on mutated files and diffs verdict and error class. "
-            "Phase 3 (Props/GuardsC20.lean, Model/ConfigGuard.lean; 36 further theorems): the VALUES — an AST extractor turns the "
+            "Phase 3 (Props/GuardsC20.lean, Model/ConfigGuard.lean; 35 further theorems): the VALUES — an AST extractor turns the "
             "argument-validation statements of every model / masking-function / dataset constructor (membership tests, if/elif/else-raise "
             "chains, all(lo<f<hi), isinstance-int, len-in, -1-or-range against another parameter, asserts, base-class guards through "
             "super().__init__, guards that only fire in forward, `for key in kwargs: raise` loops) and of _compute_resolution into a guard "
